@@ -75,6 +75,15 @@ def bounded(ctx):
     # larger frames: long meandering components whose provisional labels merge through chains of unions
     for _ in range(24 if ctx.tier == "quick" else 120):
         cases.append((rng.rand(rng.randint(40, 130), rng.randint(40, 130)) < rng.choice([0.3, 0.35, 0.4, 0.5])).astype(np.uint8))
+    # more than 16384 provisional labels: the label table is reallocated (isolated dots, and dots joined late by a last full row)
+    dots = np.zeros((262, 262), np.uint8)
+    dots[1::2, 1::2] = 1
+    cases.append(dots)
+    joined = dots.copy()
+    joined[-1, :] = 1
+    joined[1::2, 1] = 1
+    cases.append(joined)
+    cases.append((rng.rand(300, 520) < 0.14).astype(np.uint8))
     for mask in cases:
         ns, nf = mask.shape
         data = mask.astype(np.float32) * 2.0
@@ -100,6 +109,22 @@ def bounded(ctx):
             ok = (n == n0) and same_partition(lab2 * mask, l0)
             if not ok:
                 fails.append(dict(name=nm, mask=mask.tolist(), got_n=int(n), want_n=int(n0), labels=lab2.tolist()))
+        # truly sparse input: only the pixels above threshold are stored (empty rows, gaps inside rows), and a variant with a random part of the
+        # background stored as well
+        if mask.any():
+            keep = rng.rand(*mask.shape) < 0.3
+            for tag, sel in (("only-set-pixels", mask > 0), ("set-pixels-and-some-background", (mask > 0) | keep)):
+                si, sj = np.nonzero(sel)
+                sv = data[si, sj]
+                for nm, fn in (("sparse", lambda: clib.sparse_connectedpixels(sv, si, sj, 1.0)),
+                               ("splat", lambda: clib.sparse_connectedpixels_splat(sv, si, sj, 1.0, ns, nf))):
+                    n, lab = fn()
+                    ev += 1
+                    full = np.zeros(mask.shape, int)
+                    full[si, sj] = lab
+                    ok = (n == n0) and same_partition(full * mask, l0) and (full[mask == 0] == 0).all()
+                    if not ok:
+                        fails.append(dict(name="%s (%s)" % (nm, tag), mask=mask.tolist(), got_n=int(n), want_n=int(n0), labels=full.tolist()))
         if len(samples) < 3 and mask.sum() > 3:
             samples.append(dict(mask=mask.tolist(), n=int(n0)))
         if len(fails) > 5:
@@ -111,4 +136,4 @@ def bounded(ctx):
 def units(ctx):
     keys = ["blobs.c:dset_initialise", "blobs.c:dset_new", "blobs.c:dset_find", "blobs.c:dset_link", "blobs.c:dset_makeunion",
             "blobs.c:dset_compress", "connectedpixels.c:connectedpixels", "sparse_image.c:sparse_connectedpixels"]
-    return [CUnit(k) for k in keys] + [BoundedUnit("partition-vs-bfs", bounded, "all masks up to 3x4 (thorough 4x4, 3x6), chains, random up to 24x24 and 24 (thorough 120) random frames up to 130x130")]
+    return [CUnit(k) for k in keys] + [BoundedUnit("partition-vs-bfs", bounded, "all masks up to 3x4 (thorough 4x4, 3x6), chains, random up to 24x24, 24 (thorough 120) random frames up to 130x130, 3 frames with more than 16384 provisional labels; sparse variants on full frames and on truly sparse pixel lists")]
